@@ -82,7 +82,27 @@ def to_jax(e):
     return jnp.asarray(e) if isinstance(e, np.ndarray) else e
 
 
-def one_case(ctx: Ctx, stream: str, i: int) -> None:
+def mask_int_forms():
+    """every combination of a boolean mask of rank 2 or 3 with a Python integer / a slice on its far side (the mask
+    consumes several axes, so the k-th entry of the tuple is not the k-th axis), every legal value of the integer"""
+    out = []
+    m2 = np.array([[True, False], [True, True]])
+    m3 = np.array([[[True, False], [False, True]], [[True, True], [False, False]]])
+    for k in range(-3, 3):
+        out.append(((2, 2, 3), (m2, k)))
+        out.append(((3, 2, 2), (Ellipsis, k, m2)))
+        out.append(((3, 2, 2), (k, m2)))
+    for k in range(-4, 4):
+        out.append(((2, 2, 2, 4), (m2, slice(None), k)))
+        out.append(((2, 2, 2, 4), (m3, k)))
+        out.append(((2, 2, 5, 4), (m2, slice(1, None, 2), k)))
+    for k in range(-2, 2):
+        out.append(((2, 2, 2), (k, Ellipsis, np.array([True, True]))))
+        out.append(((2, 2, 2), (np.array([True, False]), k, slice(None, None, -1))))
+    return out
+
+
+def one_case(ctx: Ctx, stream: str, i: int, forced=None) -> None:
     from furax._base.core import CompositionOperator, IdentityOperator
     from furax._base.diagonal import DiagonalOperator
     from furax._base.indices import IndexOperator
@@ -91,6 +111,8 @@ def one_case(ctx: Ctx, stream: str, i: int) -> None:
     shape = tuple(rng.choice([2, 3, 4, 5]) for _ in range(nd))
     nleaf = rng.choice([1, 1, 2])
     idx = rand_index(rng, shape)
+    if forced is not None:
+        shape, idx = forced
     has_mask = any(isinstance(e, np.ndarray) and e.dtype == bool for e in idx)
     has_arr = any(isinstance(e, np.ndarray) and e.dtype != bool for e in idx)
     structure = [jax.ShapeDtypeStruct(shape, jnp.float32) for _ in range(nleaf)]
@@ -484,6 +506,9 @@ def run(ctx: Ctx) -> None:
     for i in range(260 if q else 6000):
         if ctx.want('index', i):
             one_case(ctx, 'index', i)
+    for i, form in enumerate(mask_int_forms()):
+        if ctx.want('maskint', i):
+            one_case(ctx, 'maskint', i, forced=form)
     for i in range(60 if ctx.tier == 'quick' else 900):
         if ctx.want('hetero', i):
             hetero_case(ctx, 'hetero', i)
